@@ -11,6 +11,10 @@ spec["cmp_chain"] = [ [file, function, [params]] ]
 spec["codec16"] = [ [file, encode-macro, decode-macro] ]
     UINT16ENCODE(p, i): the two byte expressions    ->  Definition <enc>_b0 / _b1 (i : Z) : Z
     UINT16DECODE(p, i): i = e0(*p); i |= e1(*p)     ->  Definition <dec> (b0 b1 : Z) : Z
+spec["str_conds"] = [ [file, function, anchor-regex, gallina-name, [string params], [integer params]] ]
+    like conds, but the expression may call strncmp(s1, s2, LEN) with s1, s2 among the string parameters and LEN an
+    integer expression that may contain strlen(s); they become H4.ANLang.strncmp / strlen on byte lists
+                                                   ->  Definition <name> (strings : list Z) (ints : Z) : Z
 spec["conds"] = [ [file, function, anchor-regex, gallina-name, [params], {c-subexpr: identifier}], ... ]
     the anchor must match exactly once in the function body; group 1 is a C integer/boolean expression
                                                    ->  Definition <name> (params : Z) : Z      (truth value 0/1)
@@ -92,6 +96,44 @@ def emit(repo, spec, H):
         e1 = H.P(fix(m1.group(1).replace("*(p)", "b1")), ["b1"], env).ternary_all()
         out.append("(* %s: %s: %s; %s *)" % (f, dec, _c(stm[0]), _c(stm[2])))
         out.append("Definition %s (b0 b1 : Z) : Z := Z.lor %s %s." % (dec, e0, e1))
+    for f, fn, anchor, name, sparams, iparams in spec.get("str_conds", []):
+        body = H.func_body(H.src(repo, f), fn)
+        ms = list(re.finditer(anchor, body))
+        if len(ms) != 1:
+            raise ValueError("%s:%s: anchor %r matched %d times (need exactly 1)" % (f, fn, anchor, len(ms)))
+        cexpr = " ".join(ms[0].group(1).split())
+        env = _env(repo, f, H)
+        calls = []
+
+        def lenterm(e):
+            ls = []
+
+            def sl(m):
+                if m.group(1) not in sparams:
+                    raise ValueError("%s:%s: strlen of %s" % (f, fn, m.group(1)))
+                ls.append(m.group(1))
+                return " STRLEN%d " % (len(ls) - 1)
+            e2 = re.sub(r"\bstrlen\s*\(\s*(\w+)\s*\)", sl, e)
+            t = H.P(e2, iparams + ["STRLEN%d" % i for i in range(len(ls))], env).ternary_all()
+            for i, nm in enumerate(ls):
+                t = re.sub(r"\bSTRLEN%d\b" % i, "(strlen %s)" % nm, t)
+            return t
+
+        def sc(m):
+            a, b, ln = m.group(1), m.group(2), m.group(3)
+            if a not in sparams or b not in sparams:
+                raise ValueError("%s:%s: strncmp on %s, %s" % (f, fn, a, b))
+            calls.append("(strncmp %s %s %s)" % (a, b, lenterm(ln)))
+            return " STRNCMP%d " % (len(calls) - 1)
+        e = re.sub(r"\bstrncmp\s*\(\s*(\w+)\s*,\s*(\w+)\s*,\s*((?:[^()]|\([^()]*\))*)\)", sc, cexpr)
+        if re.search(r"\b(strcmp|strncmp|strlen|memcmp|strcasecmp)\b", e):
+            raise ValueError("%s:%s: unsupported string call in %r" % (f, fn, cexpr))
+        term = H.P(e, iparams + ["STRNCMP%d" % i for i in range(len(calls))], env).ternary_all()
+        for i, c in enumerate(calls):
+            term = re.sub(r"\bSTRNCMP%d\b" % i, c.replace("\\", "\\\\"), term)
+        out.append("(* %s: %s: %s *)" % (f, fn, _c(cexpr)))
+        out.append("Definition %s %s %s : Z := %s." % (name, " ".join("(%s : list Z)" % p_ for p_ in sparams),
+                                                     " ".join("(%s : Z)" % p_ for p_ in iparams), term))
     for f, fn, anchor, name, params, subst in spec.get("conds", []):
         body = H.func_body(H.src(repo, f), fn)
         ms = list(re.finditer(anchor, body))
